@@ -34,9 +34,19 @@ def random_streams(rng, n_streams, n_frames):
                 else:
                     body.append(rng.randrange(256))
             frames.append([ESC, t] + body)
-        # clean trailer: two long frames without ESC
-        for j in range(2):
-            frames.append([ESC, 51] + [200 + j] * 21)
+        # clean trailer: two long frames without ESC - except for every third stream, which ends with
+        # Mode-AC / short frames holding escaped 0x1A inside the 23-byte look-ahead (what an implementation
+        # hands on at the end of the stream, if anything, must still be the un-escaped frames)
+        if len(vecs) % 3 != 2:
+            for j in range(2):
+                frames.append([ESC, 51] + [200 + j] * 21)
+        else:
+            for j in range(rng.choice([1, 2, 3])):
+                t = rng.choice([49, 50])
+                body = [ESC if rng.random() < 0.35 else rng.randrange(256) for _ in range(SIZES[t] - 2)]
+                if j == 0 and ESC not in body[:-1]:
+                    body[rng.randrange(len(body) - 1)] = ESC
+                frames.append([ESC, t] + body)
         raw = [b for f in frames for b in wire(f)]
         vecs.append({"frames": frames, "raw": raw})
     return vecs
@@ -63,6 +73,9 @@ def check(run):
     n_tlc = len(vectors)
     rng = random.Random(run.seed)
     vectors += random_streams(rng, 2000 if thorough else 150, 20)
+    # streams longer than several 1024-byte reads: every single cut c then gives "c bytes pending, then
+    # full 1024-byte reads" (the harness splits a chunk at 1024, the size of next_msg's read buffer)
+    vectors += random_streams(rng, 40 if thorough else 4, 160)
     vec_path = os.path.join(run.work, "vectors.ndjson")
     core.write_ndjson(vec_path, vectors)
     trace = os.path.join(run.work, "trace.ndjson")
